@@ -11,7 +11,7 @@ Comments and whitespace are ignored.
 import hashlib, json, os, re, sys
 
 ROOT = os.path.dirname(os.path.dirname(os.path.abspath(__file__)))
-REPO = '/repo'
+REPO = os.environ.get('VERIF_REPO', '/repo')
 PATH = os.path.join(ROOT, 'tools', 'source_fingerprints.json')
 # files every store-based model depends on
 STORE = ['src/graph/creation.rs', 'src/graph/mod.rs', 'src/graph/query.rs', 'src/graph_specs.rs', 'src/edge.rs', 'src/node.rs']
